@@ -585,7 +585,7 @@ func checkIndexSinks(c *core.Ctx, rule string) {
 			continue
 		}
 		key := "functions." + d.Key()
-		in := &absint.Interp{Info: t.info, Prog: p, ErrorsNil: false, MaxPaths: 3000}
+		in := withMaxPaths(newLitInterp(p, t.info, "functions"), 3000)
 		type viol struct {
 			pos  token.Pos
 			what string
